@@ -58,6 +58,8 @@ type healResult struct {
 	Direct        int // correct replicas that committed through the BFT itself
 	Bound         uint64
 	Lies          int // Pacemaker messages for far higher rounds sent by the Byzantine validator during the healed period
+	Echoes        int // PRECOMMIT / COMMIT messages of a correct leader re-signed by the Byzantine validator and sent right behind the original
+	Partials      int // leader messages whose certificate the Byzantine validator replaced by one it signed alone (a partial certificate of the same view)
 }
 
 // heal runs the healed period on the network the prefix left behind
@@ -103,12 +105,57 @@ func heal(r *sim.Rng, n *bftsim.Net, correct map[int]bool, byzIdx int, maxRounds
 		rootNext = 20000 + int64(r.Intn(20000)) // a root-chain block every ~20-40 s
 	}
 	root := n.Reps[live[0]].Ctl.RootHeightNow()
+	// in a third of the runs the Byzantine validator is not silent either: every PRECOMMIT / COMMIT message a correct leader sends
+	// is copied, signed again under the Byzantine validator's own key (the certificate inside stays valid) and delivered right
+	// behind the original. A replica that let the copy replace the leader's message would find "the wrong proposer" at its next
+	// step and give the round up - every round, for ever, with less than one third of the power misbehaving
+	echo := byzIdx >= 0 && r.Chance(34)
+	echoed := map[string]bool{}
+	// ... or (another third) it answers every PRECOMMIT / COMMIT message of a correct leader with a message of the same phase
+	// whose certificate it signed ALONE (same view, same payload: a partial certificate). Replicas keep partial certificates to
+	// look for double signers later; looking must not damage the leader's message they are about to lock on or commit
+	partial := byzIdx >= 0 && !echo && r.Chance(50)
 	flushBag := func() {
 		for _, e := range n.Bag {
 			if e.From == byzIdx || !correct[e.To] {
 				continue // the Byzantine validator is silent; nobody needs to talk to it
 			}
-			push(&event{at: now + 1 + int64(r.Intn(50)), rep: -1, env: e})
+			at := now + 1 + int64(r.Intn(50))
+			push(&event{at: at, rep: -1, env: e})
+			if partial && !e.Replica && (e.Phase == bft.Precommit || e.Phase == bft.Commit) {
+				m := new(bft.Message)
+				if lib.Unmarshal(e.Bytes, m) == nil && m.Qc != nil && m.Qc.Header != nil {
+					pq := &lib.QuorumCertificate{Header: m.Qc.Header, BlockHash: m.Qc.BlockHash, ResultsHash: m.Qc.ResultsHash, ProposerKey: m.Qc.ProposerKey}
+					if sig, serr := sim.AggregateSign(n.VS, pq.SignBytes(), []int{byzIdx}); serr == nil {
+						pq.Signature = sig
+						pm := &bft.Message{Header: m.Header, Qc: pq}
+						if err := pm.Sign(n.Keys[byzIdx].Priv); err == nil {
+							if bz, e2 := lib.Marshal(pm); e2 == nil {
+								push(&event{at: at + 1 + int64(r.Intn(30)), rep: -1, env: &bftsim.Env{From: byzIdx, To: e.To, Bytes: bz, Kind: e.Kind + "-PARTIAL", Round: e.Round, Phase: e.Phase}})
+								if k := fmt.Sprintf("p%d/%d/%d", e.From, e.Round, e.Phase); !echoed[k] {
+									echoed[k] = true
+									res.Partials++
+								}
+							}
+						}
+					}
+				}
+			}
+			if echo && !e.Replica && (e.Phase == bft.Precommit || e.Phase == bft.Commit) {
+				m := new(bft.Message)
+				if lib.Unmarshal(e.Bytes, m) == nil && m.Qc != nil {
+					m.Signature = nil
+					if err := m.Sign(n.Keys[byzIdx].Priv); err == nil {
+						if bz, e2 := lib.Marshal(m); e2 == nil {
+							push(&event{at: at + 1 + int64(r.Intn(30)), rep: -1, env: &bftsim.Env{From: byzIdx, To: e.To, Bytes: bz, Kind: e.Kind + "-RE-SIGNED", Round: e.Round, Phase: e.Phase}})
+							if k := fmt.Sprintf("%d/%d/%d", e.From, e.Round, e.Phase); !echoed[k] {
+								echoed[k] = true
+								res.Echoes++
+							}
+						}
+					}
+				}
+			}
 		}
 		n.Bag = nil
 	}
